@@ -84,3 +84,39 @@ def is_throw_call(call, names=('throw',)):
 
 def test_mentions(test, dotted_name):
     return any(dotted(n) == dotted_name for n in ast.walk(test) if isinstance(n, (ast.Attribute, ast.Name)))
+
+
+def alias_map(fn_node):
+    """local names that are plain aliases of an attribute read or another name: assigned exactly once in the function, from an expression
+    without calls (`min_val = converter.min_val`, `py_check = attr.py_check`) -> {name: dotted source}"""
+    import ast as _ast
+    from .loader import dotted as _dotted
+    defs = {}
+    for st in _ast.walk(fn_node):
+        if isinstance(st, _ast.Assign):
+            for t in st.targets:
+                if isinstance(t, _ast.Name): defs.setdefault(t.id, []).append(st.value)
+                else:
+                    for x in _ast.walk(t):
+                        if isinstance(x, _ast.Name) and isinstance(x.ctx, _ast.Store): defs.setdefault(x.id, []).append(None)
+        elif isinstance(st, (_ast.AugAssign, _ast.AnnAssign)) and isinstance(st.target, _ast.Name): defs.setdefault(st.target.id, []).append(None)
+        elif isinstance(st, (_ast.For, _ast.AsyncFor, _ast.comprehension)):
+            for x in _ast.walk(st.target):
+                if isinstance(x, _ast.Name): defs.setdefault(x.id, []).append(None)
+    out = {}
+    for n, vs in defs.items():
+        if len(vs) == 1 and vs[0] is not None and isinstance(vs[0], (_ast.Attribute, _ast.Name)) and _dotted(vs[0]): out[n] = _dotted(vs[0])
+    return out
+
+
+def deref(fn_node, expr, amap=None):
+    """dotted text of `expr` with a leading local alias replaced by what it stands for"""
+    from .loader import dotted as _dotted
+    d = _dotted(expr)
+    if not d: return d
+    amap = alias_map(fn_node) if amap is None else amap
+    head, _, rest = d.partition('.')
+    seen = set()
+    while head in amap and head not in seen:
+        seen.add(head); d = amap[head] + (('.' + rest) if rest else ''); head, _, rest = d.partition('.')
+    return d
